@@ -699,7 +699,7 @@ func point(t *task, site int32, cls Class, elig bool) {
 	}
 	if cls == ClsSync {
 		t.streak++
-		if t.streak > 2000 && !cfg.Replay {
+		if t.streak > 100 && !cfg.Replay {
 			// a task spinning on atomics/TryLock: a fair scheduler lets the others run
 			if o := others(t); len(o) > 0 {
 				t.streak = 0
